@@ -32,7 +32,10 @@ def dep_key(ctx, rule="C04.dep-key"):
     cfg = cfg_of(g.node)
     par = g.pos_params[1]
     upd = [n for n in walk_no_nested(g.node) if isinstance(n, ast.Call) and dotted(n.func) == "par_regref_deps"]
-    ctx.require(upd, "Operation.__init__ no longer calls par_regref_deps")
+    if not upd:
+        ctx.ob(rule, g.site, False, "Operation.__init__ does not call par_regref_deps: measured-parameter dependencies "
+               "are never recorded", role="accumulate", line=g.node.lineno)
+        return
     uid = cfg.node_of_expr(upd[0])[0]
     conds = cfg.branch_conditions(uid)
     loops = [h for h, lab in conds if cfg.node(h).kind == "for" and lab == TRUE]
